@@ -59,6 +59,9 @@ def build():
         txt = open(os.path.join(vlib.REPO, "libs/core/include/fcppt/array/append.hpp")).read()
         if "fcppt::array::size<Array1>" not in txt:
             defs.append("C05_ARRAY_APPEND_LVALUE=1")
+        txt = open(os.path.join(vlib.REPO, "libs/core/include/fcppt/optional/to_container.hpp")).read()
+        if "fcppt::optional::value_type<Optional>(" in txt:
+            defs.append("C05_TO_CONTAINER_CONST=1")   # const lvalue optionals compile since 73de222
     except OSError:
         pass
     return vlib.build_harness("c05_linear", SOURCES, libs=("core", "options"), defs=tuple(defs))
@@ -117,6 +120,11 @@ def model_check(ctx):
         if inv not in r.invariant_violated:
             raise vlib.Infra("%s: TLC did not violate %s\n%s" % (cfg, inv, "\n".join(r.out.splitlines()[-15:])))
         return {"cfg": cfg, "violates": inv, "states": r.distinct}
+    # extension round: the record model (observed-only contract "which label ends where")
+    vlib.tlc_mc(ctx, "RecordLabelsMC", "MC_RecordLabels.cfg", workers=4, timeout=900, xmx="3g")
+    r = vlib.tlc("RecordLabelsMC", "MC_RecordLabels_bug.cfg", workers=2, timeout=600, xmx="2g", tag="RecordLabelsVac")
+    if "LawSetGet" not in r.invariant_violated:
+        raise vlib.Infra("MC_RecordLabels_bug.cfg did not violate LawSetGet")
     ctx.extra["vacuity_guards"] = vlib.parallel(expect_violation, BUG_CFGS, workers=5)
     ctx.extra["witnesses_reached"] = vlib.parallel(expect_violation, WITNESS_CFGS, workers=3)
 
@@ -187,7 +195,20 @@ def judge_record(ctx, path, what, rc, out, seed, tier):
         if any(w.startswith("HARNESS") for w in b["why"]):
             raise vlib.Infra("harness/log defect at line %d of %s: %s %s" % (b["l"], path, b["op"], b["why"]))
     seen = {}
+    obs = ctx.extra.setdefault("observations", {"count": 0, "by_kind": {}, "samples": []})
     for b in bad:
+        if "OBSERVED-ONLY" in b["why"]:
+            # outside the statement of C05 (results of options / parse parsers, label placement of record
+            # operations): judged and reported, never a violation
+            why = sorted(w for w in b["why"] if w != "OBSERVED-ONLY")
+            key = "%s:%s" % (b["op"], "+".join(why))
+            obs["count"] += 1
+            obs["by_kind"][key] = obs["by_kind"].get(key, 0) + 1
+            if obs["by_kind"][key] <= 2 and len(obs["samples"]) < 20:
+                obs["samples"].append({"op": b["op"], "reasons": why, "event": json.loads(lines[b["l"] - 1])})
+                print("OBSERVATION (outside the statement of C05, not a violation): %s: %s at event %s"
+                      % (b["op"], ",".join(why), lines[b["l"] - 1][:200]))
+            continue
         hist = history_of(lines, b["l"])
         head = json.loads(hist[0])
         for why in sorted(b["why"]):
@@ -201,6 +222,33 @@ def judge_record(ctx, path, what, rc, out, seed, tier):
     return lines
 
 
+def label_corruption_selftest(ctx, lines):
+    """swap the labels of the result in one recorded record::permute history: the judge must report
+    label-mapping (as an observation)"""
+    for i, l in enumerate(lines):
+        if l.startswith('{"e":"labels"') and '"l":"a"' in l and '"l":"b"' in l:
+            hist = history_of(lines, i + 1)
+            if not hist[0].startswith('{"e":"reset","op":"record::permute"'):
+                continue
+            arg, _, res = l.partition(',"res":')
+            res = res.replace('"l":"a"', '"l":"@"').replace('"l":"b"', '"l":"a"').replace('"l":"@"', '"l":"b"')
+            k = hist.index(l)
+            bad_hist = hist[:k] + [arg + ',"res":' + res] + hist[k + 1:]
+            p = os.path.join(ctx.workdir, "labels_corrupted.ndjson")
+            with open(p, "w") as f:
+                f.write("\n".join(bad_hist) + "\n")
+            r = vlib.tlc(TRACE_MODULE, TRACE_CFG, workers=1, env={"TRACE": p}, timeout=300, xmx="2g", tag="LinearityCorrupt")
+            v = vlib._verdict_lines(r.out)
+            got = set()
+            for b in (v.get("VERDICT") or [{"bad": []}])[-1]["bad"]:
+                got.update(b["why"])
+            if not {"label-mapping", "OBSERVED-ONLY"} <= got:
+                raise vlib.Infra("label corruption self-test: swapped labels were not reported (got %s)" % sorted(got))
+            ctx.extra["label_corruption_selftest"] = sorted(got)
+            return
+    raise vlib.Infra("label corruption self-test: no record::permute history with labels found")
+
+
 def run(ctx):
     model_check(ctx)
     binary = build()
@@ -211,6 +259,7 @@ def run(ctx):
     ni = sorted(set(re.findall(r"NOT-INSTANTIABLE (.*)", out)))
     ctx.extra["not_instantiable"] = ni
     lines = judge_record(ctx, path, "recorded history", rc, out, ctx.seed, ctx.tier)
+    label_corruption_selftest(ctx, lines)
     for i in (3, len(lines) // 2):
         h = history_of(lines, max(1, i))
         ctx.sample({"history": [json.loads(x) for x in h[:40]]})
